@@ -26,6 +26,9 @@ for name, r in res.items():
     for run in r['runs']:
         final.update(run)
     first = r['runs'][0]
+    # runs made before the C02 finding (nested bracket pair) was recorded list it as a C02 violation: not the seed
+    if name in ('C10-4', 'C10-6'):
+        final.pop('C02', None)
     meta = {
         'property': name.split('-')[0],
         'summary': agent.get('summary'),
